@@ -57,41 +57,53 @@ def pushAtom (self : Atom) : Option (KV × List Atom) → Option (KV × List Ato
   | some (kv, pos) => some (kv, pos ++ [self])
   | none => none
 
+/-- `takeFirst` (iterator.go:283): the key is at least as long as the node's path but
+lexicographically below it, so everything in this subtree is larger. -/
+def takeFirst (newPath : Bits) (key : Bytes) : Bool :=
+  decide (newPath.length > 0) && decide (8 * key.length ≥ newPath.length) && decide (key < packBits newPath)
+
+/-- `keyNotLonger` (iterator.go:284). -/
+def keyNotLonger (newPath : Bits) (key : Bytes) : Bool := decide (8 * key.length ≤ newPath.length)
+
+/-- Try the node's own leaf (`tryNext(n.LeafNode, key, visitAt)`, only in `visitBefore`). -/
+def viaLeaf (self : Atom) (lf : Option KV) (newPath : Bits) (key : Bytes) : Option (KV × List Atom) :=
+  if keyNotLonger newPath key || takeFirst newPath key then
+    match lf with
+    | some (k, v) => if k < key then none else some ((k, v), [{ self with st := .at }])
+    | none => none
+  else none
+
+/-- The body of `case visitAt` (iterator.go:298-312), reached from `visitBefore` by fallthrough.
+`goL`/`goR` are `doNext` on the left/right child in state `visitBefore`. -/
+def fromAt (self : Atom) (newPath : Bits) (key : Bytes) (goL goR : Bytes → Option (KV × List Atom)) :
+    Option (KV × List Atom) :=
+  let tf := takeFirst newPath key
+  let key := if keyNotLonger newPath key then appendBit key newPath.length false else key
+  let goLeft := !getBit key newPath.length || tf
+  let viaLeft := if goLeft then pushAtom { self with st := .atLeft } (goL key) else none
+  match viaLeft with
+  | some res => some res
+  | none =>
+    let key := if goLeft then advanceRight key newPath.length else key
+    pushAtom { self with st := .after } (goR key)
+
 /-- `treeIterator.doNext` (iterator.go:256). Returns the item found (Go: `it.key != nil`) and the
 atoms appended to `it.pos` by this call, deepest first. -/
 def doNext : Trie → Bits → Bytes → VState → Option (KV × List Atom)
   | .nil, _, _, _ => none
   | .leaf k v, _, key, _ => if k < key then none else some ((k, v), [])
   | .node lab lf l r, path, key, st =>
-    let self : Trie := .node lab lf l r
+    let self : Atom := ⟨.node lab lf l r, path, st⟩
     let newPath := path ++ lab
-    let nbd := newPath.length
-    let takeFirst := decide (nbd > 0) && decide (8 * key.length ≥ nbd) && decide (key < packBits newPath)
-    let keyNotLonger := decide (8 * key.length ≤ nbd)
-    -- the body of `case visitAt` (reached from `visitBefore` by fallthrough)
-    let fromAt : Option (KV × List Atom) :=
-      let key := if keyNotLonger then appendBit key nbd false else key
-      let goLeft := !getBit key nbd || takeFirst
-      let viaLeft :=
-        if goLeft then pushAtom ⟨self, path, .atLeft⟩ (doNext l newPath key .before) else none
-      match viaLeft with
-      | some res => some res
-      | none =>
-        let key := if goLeft then advanceRight key nbd else key
-        pushAtom ⟨self, path, .after⟩ (doNext r newPath key .before)
+    let goL := fun k => doNext l newPath k .before
+    let goR := fun k => doNext r newPath k .before
     match st with
     | .before =>
-      let viaLeaf : Option (KV × List Atom) :=
-        if keyNotLonger || takeFirst then
-          match lf with
-          | some (k, v) => if k < key then none else some ((k, v), [⟨self, path, .at⟩])
-          | none => none
-        else none
-      match viaLeaf with
+      match viaLeaf self lf newPath key with
       | some res => some res
-      | none => fromAt
-    | .at => fromAt
-    | .atLeft => pushAtom ⟨self, path, .after⟩ (doNext r newPath (advanceRight key nbd) .before)
+      | none => fromAt self newPath key goL goR
+    | .at => fromAt self newPath key goL goR
+    | .atLeft => pushAtom { self with st := .after } (goR (advanceRight key newPath.length))
     | .after => none
 
 /-- `Seek` (iterator.go:195). -/
